@@ -95,35 +95,36 @@ def hash_job(name, bs):
 def replay_variant(path):
     """behaviours recorded by the FIPS-build pass carry 'variant=fips' in their '# driver:' line"""
     text = open(path).read()
-    return "nosafe" if "variant=nosafe" in text else "fips" if "variant=fips" in text else "def"
+    return "nosafe" if "variant=nosafe" in text else "dbg" if "variant=dbg" in text else "fips" if "variant=fips" in text else "def"
 
 
-def fips_legacy_pass(chk, unit, rng, props, tier, variant="fips"):
+def fips_legacy_pass(chk, unit, rng, props, tier, variant="fips", allfams=False):
     """the deprecated (un-prefixed) and per-family entry points are not gated and must compute the same in a FIPS_MODE build:
     a slim pass of the unit's behaviours through them on the FIPS variant (the isal_ entry points of non-approved algorithms
     refuse there, which is C13's subject)."""
     k = 1 if tier == "quick" else 6
     if unit == "hash":
         exe = build.build_driver("hash", HASH_SRCS, variant=variant)
-        jobs = hash_jobs(rng.randrange(1 << 30), 4 * k, fams=["legacy"], rejects=0.1)
+        jobs = hash_jobs(rng.randrange(1 << 30), (2 if allfams else 4) * k, fams=None if allfams else ["legacy"], rejects=0.15)
         spec, marker = "TraceHash", "HReset"
     elif unit == "aes":
         exe = build.build_driver("aes", AES_SRCS, variant=variant)
         aj = {}
-        aj.update(gen_aes.gcm_oneshot_behaviours(rng, 14 * k, fams=["legacy"]))
-        aj.update(gen_aes.gcm_stream_jobs(rng, 2 * k, fams=["legacy"]))
-        aj.update(gen_aes.xts_jobs(rng, 4 * k, fams=["legacy"]))
-        aj.update({n: b for n, b in gen_aes.cbc_jobs(rng, 2 * k).items() if "-legacy-" in n})
-        aj.update({n: b for n, b in gen_aes.kexp_jobs(rng, 2 * k).items() if "-legacy-" in n or "-precomp-" in n})
+        af = None if allfams else ["legacy"]
+        aj.update(gen_aes.gcm_oneshot_behaviours(rng, 14 * k, fams=af))
+        aj.update(gen_aes.gcm_stream_jobs(rng, 2 * k, fams=af))
+        aj.update(gen_aes.xts_jobs(rng, 4 * k, fams=af))
+        aj.update({n: b for n, b in gen_aes.cbc_jobs(rng, 2 * k).items() if allfams or "-legacy-" in n})
+        aj.update({n: b for n, b in gen_aes.kexp_jobs(rng, 2 * k).items() if allfams or "-legacy-" in n or "-precomp-" in n})
         jobs = merge_jobs(aj)
         spec, marker = "TraceAes", "Mark"
     else:
         exe = build.build_driver("mh", MH_SRCS, variant=variant, wraps=MH_WRAPS)
         mj = {}
         for alg in ("sha1", "sha256", "murmur"):
-            mj.update(gen_mh.mh_jobs(rng, alg, 3 * k, fams=["legacy", "legacy_base", "avx2"]))
+            mj.update(gen_mh.mh_jobs(rng, alg, 3 * k, fams=None if allfams else ["legacy", "legacy_base", "avx2"]))
         mj.update({n: [[l + " legacy" if l.startswith("rhmask ") else l for l in b] for b in bs]
-                   for n, bs in gen_mh.rh_jobs(rng, 4 * k).items() if n.endswith("-legacy")})
+                   for n, bs in gen_mh.rh_jobs(rng, 4 * k).items() if n.endswith("-legacy") or (allfams and variant != "fips")})
         jobs = merge_jobs(mj, key=lambda n: n, driver="mh")
         spec, marker = "TraceMh", "Mark"
     for j in jobs:
@@ -197,6 +198,10 @@ def check_c01(tier, seed, replay=None, selftest=False):
     jouts = run_jobs(jjobs, build.build_driver("job", JOB_SRCS), "TraceJob")
     b2, e2 = collect(chk, jouts, props, marker="JReset")
     nb, ne, jobs, outs = nb + b2, ne + e2, jobs + jjobs, outs + jouts
+    vr = random.Random(seed * 31 + 1)
+    fips_legacy_pass(chk, "hash", vr, props, tier)
+    fips_legacy_pass(chk, "hash", vr, props, tier, variant="nosafe", allfams=True)
+    fips_legacy_pass(chk, "hash", vr, props, tier, variant="dbg", allfams=True)
     _finish_traces(chk, jobs, outs, nb, ne,
                    "behaviour = one manager's history (random + state-class-directed generators, all 28 family instances "
                    "+ isal_/legacy entry points); evaluations = public-call events validated by TLC against HashAPI; "
@@ -217,7 +222,12 @@ def _hash_check(pid, tier, seed, replay, per_quick, per_thorough, rejects, rule_
     jobs = hash_jobs(seed * 7919 + int(pid[1:]), per_quick if tier == "quick" else per_thorough, rejects=rejects)
     outs = run_jobs(jobs, exe, "TraceHash")
     nb, ne = collect(chk, outs, props)
-    fips_legacy_pass(chk, "hash", random.Random(seed * 31 + int(pid[1:])), props, tier)
+    vr = random.Random(seed * 31 + int(pid[1:]))
+    fips_legacy_pass(chk, "hash", vr, props, tier)
+    # other build configurations compile other code: SAFE_DATA=n (scrubbing %ifdef'ed out) and lib_debug=1 (assertions live, as in
+    # the autotools build) - every family, few behaviours
+    fips_legacy_pass(chk, "hash", vr, props, tier, variant="nosafe", allfams=True)
+    fips_legacy_pass(chk, "hash", vr, props, tier, variant="dbg", allfams=True)
     _finish_traces(chk, jobs, outs, nb, ne,
                    "behaviour = one manager's history (random + state-class-directed generators, all 28 family instances "
                    "+ isal_/legacy entry points)" + rule_extra + "; evaluations = public-call events validated by TLC "
@@ -285,7 +295,8 @@ def aes_check(pid, tier, seed, replay, make_jobs, rule=None, level="model_checki
     nb, ne = collect(chk, outs, props, marker="Mark")
     if pid in ("C02", "C03", "C04", "C07"):
         fips_legacy_pass(chk, "aes", rng, props, tier)
-        fips_legacy_pass(chk, "aes", rng, props, tier, variant="nosafe")     # SAFE_DATA=n assembles different code paths
+        fips_legacy_pass(chk, "aes", rng, props, tier, variant="nosafe", allfams=True)     # SAFE_DATA=n assembles different code paths
+        fips_legacy_pass(chk, "aes", rng, props, tier, variant="dbg", allfams=True)
     _finish_traces(chk, jobs, outs, nb, ne, rule)
     chk.cov["distinct_nontrivial"] = len({" ".join(b[-1].split()[:4] + b[-1].split()[-8:]) + str(len(b)) + b[0] for j in jobs for b in j["behaviours"]})
     chk.assumptions += ["TLC + Java primitive overrides (self-tested at setup: FIPS 197, SP 800-38A/D, IEEE 1619 vectors)",
@@ -367,6 +378,8 @@ def mh_check(pid, tier, seed, replay, make_jobs, rule, props=None):
     outs = run_jobs(jobs, exe, "TraceMh")
     nb, ne = collect(chk, outs, props | {"SPEC"}, marker="Mark")
     fips_legacy_pass(chk, "mh", rng, props, tier)
+    fips_legacy_pass(chk, "mh", rng, props, tier, variant="nosafe", allfams=True)
+    fips_legacy_pass(chk, "mh", rng, props, tier, variant="dbg", allfams=True)
     _finish_traces(chk, jobs, outs, nb, ne, rule)
     chk.assumptions += ["TLC + Java primitive overrides (self-tested at setup)", "host CPU executes every family"]
     return chk.finish()
@@ -1005,6 +1018,11 @@ def machine_check(pid, tier, seed, replay, props, rule, with_dump=False, extra=N
                     sj.append(dict(j, name="step-" + j["name"], behaviours=[["stepmode 1"] + take[0]] + take[1:], prelude="stepmode 1\n"))
             mix.append((exe, spec, sj))
     jobs, outs, nb, ne = run_mix(chk, mix, props)
+    if pid == "C19":
+        # epilogues differ when the scrubbing code is configured out: the same contracts on the SAFE_DATA=n build, every family
+        vr = random.Random(seed * 7 + 19)
+        for unit in ("aes", "hash", "mh"):
+            fips_legacy_pass(chk, unit, vr, props, tier, variant="nosafe", allfams=True)
     eps = entry_points_called(outs)
     chk.cov["evaluations"] = ne
     chk.cov["distinct_nontrivial"] = len({hashlib.sha1("\n".join(b).encode()).hexdigest() for j in jobs for b in j["behaviours"]})
